@@ -386,9 +386,10 @@ Partially_Reduced_Product<D1, D2, R>::m_swap(Partially_Reduced_Product& y) {
 template <typename D1, typename D2, typename R>
 inline void
 Partially_Reduced_Product<D1, D2, R>::add_constraint(const Constraint& c) {
+  // Note: done first, since `d1' may be modified even when `d2' throws.
+  clear_reduced_flag();
   d1.add_constraint(c);
   d2.add_constraint(c);
-  clear_reduced_flag();
 }
 
 template <typename D1, typename D2, typename R>
@@ -402,9 +403,10 @@ Partially_Reduced_Product<D1, D2, R>::refine_with_constraint(const Constraint& c
 template <typename D1, typename D2, typename R>
 inline void
 Partially_Reduced_Product<D1, D2, R>::add_congruence(const Congruence& cg) {
+  // Note: done first, since `d1' may be modified even when `d2' throws.
+  clear_reduced_flag();
   d1.add_congruence(cg);
   d2.add_congruence(cg);
-  clear_reduced_flag();
 }
 
 template <typename D1, typename D2, typename R>
@@ -419,9 +421,10 @@ template <typename D1, typename D2, typename R>
 inline void
 Partially_Reduced_Product<D1, D2, R>
 ::add_constraints(const Constraint_System& cs) {
+  // Note: done first, since `d1' may be modified even when `d2' throws.
+  clear_reduced_flag();
   d1.add_constraints(cs);
   d2.add_constraints(cs);
-  clear_reduced_flag();
 }
 
 template <typename D1, typename D2, typename R>
@@ -437,9 +440,10 @@ template <typename D1, typename D2, typename R>
 inline void
 Partially_Reduced_Product<D1, D2, R>
 ::add_congruences(const Congruence_System& cgs) {
+  // Note: done first, since `d1' may be modified even when `d2' throws.
+  clear_reduced_flag();
   d1.add_congruences(cgs);
   d2.add_congruences(cgs);
-  clear_reduced_flag();
 }
 
 template <typename D1, typename D2, typename R>
